@@ -50,7 +50,10 @@ Record invoke := {
   i_onerror : list trans;
   i_dur : nat;                   (* the Recorder service takes i_dur ms (async engine; the sync engine calls it inline) ... *)
   i_ok : bool;                   (* ... then returns (true) or raises (false) *)
-  i_val : Z }.                   (* returned value *)
+  i_val : Z;                     (* returned value *)
+  i_machine : bool }.            (* the service is a child machine (async engine): its task starts without the extra
+                                    `sleep(0)` step a callable service takes, so it overtakes callable services whose
+                                    tasks were created at the same instant *)
 
 Record node := {
   n_id : string;
